@@ -101,6 +101,10 @@ func SelectorName(pass *analysis.Pass, expr *ast.SelectorExpr) string {
 			return fmt.Sprintf("%s.%s", pkg.Imported().Path(), expr.Sel.Name)
 		case *ast.SelectorExpr:
 			return fmt.Sprintf("(%s).%s", SelectorName(pass, x), expr.Sel.Name)
+		case *ast.IndexExpr, *ast.IndexListExpr:
+			// An instantiated generic type, as in the field keys of
+			// the composite literal pkg.T[int]{Field: v}.
+			return fmt.Sprintf("(%s).%s", info.TypeOf(x), expr.Sel.Name)
 		default:
 			panic(fmt.Sprintf("unsupported selector: %v", expr))
 		}
